@@ -584,8 +584,9 @@ func (w *world) onFsEvent(e fsx.Event, s *fsx.Store) {
 	for _, c := range d.Checkpoints {
 		w.mu.Lock()
 		_, returned := w.handles[int(c.ID)]
+		gone := w.dropped[int(c.ID)]
 		w.mu.Unlock()
-		if !returned {
+		if !returned || gone {
 			continue
 		}
 		refs := []string{}
